@@ -54,6 +54,9 @@ pub(crate) struct FilesEntryIterator {
 
     /// Options to configure behavior when reading from table files.
     read_options: ReadOptions,
+
+    /// The error that stopped the last `next` or `prev` call, if any.
+    iteration_error: Option<RainDBError>,
 }
 
 /// Crate-only methods
@@ -70,6 +73,7 @@ impl FilesEntryIterator {
             current_table_iter: None,
             table_cache,
             read_options,
+            iteration_error: None,
         }
     }
 }
@@ -203,11 +207,21 @@ impl RainDbIterator for FilesEntryIterator {
         }
 
         if self.current_table_iter.as_mut().unwrap().next().is_none() {
+            // A table iterator that failed (as opposed to reaching its end) must not be taken for
+            // an exhausted one: the rest of its entries would silently be left out
+            if let Some(error) = self.current_table_iter.as_mut().unwrap().take_error() {
+                self.iteration_error = Some(error);
+                self.current_table_iter = None;
+                return None;
+            }
+
             if let Err(error) = self.skip_empty_table_files_forward() {
                 log::error!(
                     "There was an error skipping forward. Original error: {}",
                     error
                 );
+                self.iteration_error = Some(error);
+                self.current_table_iter = None;
                 return None;
             }
         }
@@ -225,11 +239,19 @@ impl RainDbIterator for FilesEntryIterator {
         }
 
         if self.current_table_iter.as_mut().unwrap().prev().is_none() {
+            if let Some(error) = self.current_table_iter.as_mut().unwrap().take_error() {
+                self.iteration_error = Some(error);
+                self.current_table_iter = None;
+                return None;
+            }
+
             if let Err(error) = self.skip_empty_table_files_backward() {
                 log::error!(
                     "There was an error skipping backward. Original error: {}",
                     error
                 );
+                self.iteration_error = Some(error);
+                self.current_table_iter = None;
                 return None;
             }
         }
@@ -247,6 +269,10 @@ impl RainDbIterator for FilesEntryIterator {
         }
 
         self.current_table_iter.as_ref().unwrap().current()
+    }
+
+    fn take_error(&mut self) -> Option<Self::Error> {
+        self.iteration_error.take()
     }
 }
 
@@ -321,6 +347,13 @@ impl MergingIterator {
         for maybe_error in self.errors.iter_mut() {
             if maybe_error.is_some() {
                 return maybe_error.take();
+            }
+        }
+
+        // Errors that stopped a child while it was moved with `next` or `prev`
+        for child_iterator in self.iterators.iter_mut() {
+            if let Some(error) = child_iterator.take_error() {
+                return Some(error);
             }
         }
 
